@@ -52,6 +52,7 @@ class V:
 
 FRESH = V()
 FRESH_T = V(kind="T")
+_STAR = V(kind="*")      # marker: "an unpacked sequence of unknown length stood here"
 
 
 def join(a: V | None, b: V | None) -> V | None:
@@ -535,7 +536,18 @@ class _FuncAnalysis:
 
     # ------------------------------------------------------------------ calls
     def call(self, e: ast.Call, env, env_out=None) -> V:
-        args = [self.ev(a, env) for a in e.args]
+        args = []
+        for a in e.args:
+            if isinstance(a, ast.Starred):
+                sv = self.ev(a.value, env)
+                if sv.items is not None:
+                    args.extend(sv.items)          # f(*pair): the positions of the display
+                else:
+                    # an unpacked sequence of unknown length: the parameters it lands on are not known; every element may reach any of them
+                    args.append(elem_of(sv))
+                    args.append(_STAR)
+            else:
+                args.append(self.ev(a, env))
         kwargs = {k.arg: self.ev(k.value, env) for k in e.keywords}
         if "out" in kwargs:
             self.sink(kwargs["out"], "inplace", e)
@@ -640,6 +652,14 @@ class _FuncAnalysis:
             names_rest = names[1:]
         else:
             names_rest = names
+        if any(v is _STAR for v in pos):
+            # positional binding is exact up to the unpacked sequence; after it every remaining positional parameter may receive any later argument
+            i = next(k for k, v in enumerate(pos) if v is _STAR)
+            rest = None
+            for v in pos[i - 1:]:
+                if v is not _STAR:
+                    rest = join(rest, v)
+            pos = pos[:i - 1] + [rest] * max(0, len(names_rest) - (i - 1))
         for n, v in zip(names_rest, pos):
             bound[n] = v
         if len(pos) > len(names_rest) and a.vararg:
